@@ -167,6 +167,8 @@ def replay(sim, plan, tx, viol, run_light):
     try:
         s2.setup()
         s2.bkt.run()
+    except ZeroDivisionError:
+        return True  # the replayed book passes through an exactly-zero value (zero quote on everything held): a legitimate zero-base refusal
     except Exception as e:  # noqa
         viol.append({"check": "c18_replay", "detail": "replaying the transaction list raised %s: %s" % (type(e).__name__, str(e)[:120]), "flags": {"kind": "exception"}})
         return True
